@@ -67,6 +67,13 @@ class FillRequestSeq(lena_sequence.LenaSequence):
             check_sequence_type.is_fill_request_el,
             el_name="FillRequest", seq_name="FillRequestSeq"
         )
+        known_kwargs = ("bufsize", "reset", "buffer_input", "buffer_output",
+                        "yield_on_remainder", "fill", "request", "reset_name")
+        unknown_kwargs = [kw for kw in kwargs if kw not in known_kwargs]
+        if unknown_kwargs:
+            raise exceptions.LenaTypeError(
+                "unknown kwargs {}".format(unknown_kwargs)
+            )
         fr = adapters.FillRequest(self, **kwargs)
         # just for tests
         self._fr = fr
